@@ -413,6 +413,18 @@ def _eval_atom(a, env):
 
 # --------------------------------------------------------------------------- AST -> Term
 
+def _method_to_np(e):
+    """np.f(..).max() -> np.max(np.f(..))  (method spelling of a reduction on an array expression), recursively in the first argument"""
+    if isinstance(e, ast.Call) and isinstance(e.func, ast.Attribute) and e.func.attr in ("max", "min") and not e.args and not e.keywords \
+            and isinstance(e.func.value, ast.Call) and (dotted(e.func.value.func) or "").startswith("np."):
+        return ast.Call(func=ast.Attribute(value=ast.Name(id="np", ctx=ast.Load()), attr=e.func.attr, ctx=ast.Load()), args=[e.func.value], keywords=[])
+    if isinstance(e, ast.Call) and dotted(e.func) in ("int", "float") and len(e.args) == 1 and not e.keywords:
+        a = _method_to_np(e.args[0])
+        if a is not e.args[0]:
+            return ast.Call(func=e.func, args=[a], keywords=[])
+    return e
+
+
 class TermBuilder:
     """Convert a (substituted) expression into a Term.
 
@@ -665,6 +677,7 @@ class TermBuilder:
         return Term.pred(src(e))
 
     def call(self, e):
+        e = _method_to_np(e)
         fn = dotted(e.func)
         args = e.args
         if fn in ("int", "float", "bool", "np.int64", "np.array", "np.asarray", "abs_id") and len(args) >= 1 and fn != "abs_id":
